@@ -4,12 +4,14 @@ import (
 	"context"
 	"errors"
 	"fmt"
+	"regexp"
 	"sort"
 	"strings"
 	"sync"
 	"time"
 
 	"cedarverif/harness/internal/bufpipe"
+	"cedarverif/harness/internal/refcodec"
 
 	"github.com/bbockelm/cedar/message"
 	"github.com/bbockelm/cedar/security"
@@ -23,8 +25,56 @@ type triple struct{ tag, addr, cmd string }
 // ccHandshake: one real client handshake for (tag, addr, cmd) against a real server; `breakIt` makes
 // the server drop the connection right after reading the client's first message.
 func ccHandshake(cache *security.SessionCache, t triple, validCmds []int, breakIt bool, stall bool, explicitSid string, clientAuth security.SecurityLevel) (neg *security.SecurityNegotiation, resumed bool, err error) {
+	neg, resumed, _, _, err = ccHandshakeDecl(cache, t, validCmds, breakIt, stall, explicitSid, clientAuth)
+	return
+}
+
+var ccValidRe = regexp.MustCompile(`ValidCommands\s*=\s*"([^"]*)"`)
+
+// serverDeclared reads what the SERVER declared valid for the session from the wire: the post-auth ad
+// is the server's first protected message; it is opened with the reference codec under the key the
+// SERVER side holds (first-frame AAD = SHA-256 of the cleartext the server sent / received before it).
+// Nothing the client computed enters. ok=false when no protected server frame could be opened.
+func serverDeclared(c2s, s2c, key []byte) (string, bool) {
+	if len(key) == 0 {
+		return "", false
+	}
+	frames, _ := refcodec.ParseFrames(s2c)
+	for k := len(frames) - 1; k >= 0; k-- {
+		var clear []byte
+		for _, f := range frames[:k] {
+			clear = append(clear, f.Bytes()...)
+		}
+		dir, e := refcodec.NewDir(key, refcodec.Digest(clear, k > 0), refcodec.Digest(c2s, len(c2s) > 0))
+		if e != nil {
+			return "", false
+		}
+		var plain []byte
+		okAll := true
+		for _, f := range frames[k:] {
+			o, e := dir.Open(f)
+			if e != nil {
+				okAll = false
+				break
+			}
+			plain = append(plain, o.Plain...)
+		}
+		if !okAll {
+			continue
+		}
+		if m := ccValidRe.FindSubmatch(plain); m != nil {
+			return string(m[1]), true
+		}
+		return "", true // the ad carries no ValidCommands at all: nothing declared
+	}
+	return "", false
+}
+
+// ccHandshakeDecl is ccHandshake that also reports the server's own declaration of the commands valid
+// for the new session (full handshakes only), read from the wire independently of the client.
+func ccHandshakeDecl(cache *security.SessionCache, t triple, validCmds []int, breakIt bool, stall bool, explicitSid string, clientAuth security.SecurityLevel) (neg *security.SecurityNegotiation, resumed bool, declared string, declOK bool, err error) {
 	ca, cb := bufpipe.Pair("10.0.0.1:1111", "10.0.0.2:9618")
-	d := 800 * time.Millisecond
+	d := ccHonestBound
 	if stall {
 		d = 120 * time.Millisecond
 	}
@@ -35,6 +85,7 @@ func ccHandshake(cache *security.SessionCache, t triple, validCmds []int, breakI
 	cst, sst := stream.NewStream(ca), stream.NewStream(cb)
 	sst.SetPeerAddr("10.0.0.1:1111")
 	var wg sync.WaitGroup
+	var skey []byte // the key the SERVER side ended the handshake with
 	wg.Add(1)
 	go func() {
 		defer wg.Done()
@@ -54,9 +105,12 @@ func ccHandshake(cache *security.SessionCache, t triple, validCmds []int, breakI
 			return "", validCmds
 		}
 		a := security.NewAuthenticator(&sc, sst)
-		if _, e := a.ServerHandshake(ctx); e != nil {
+		sn, e := a.ServerHandshake(ctx)
+		if e != nil {
 			cb.Close()
+			return
 		}
+		skey = append([]byte{}, sn.GetSharedSecret()...)
 	}()
 	var cmd int
 	fmt.Sscan(t.cmd, &cmd)
@@ -70,8 +124,14 @@ func ccHandshake(cache *security.SessionCache, t triple, validCmds []int, breakI
 		ca.Close()
 	}
 	wg.Wait()
+	if err == nil && !resumed {
+		declared, declOK = serverDeclared(ca.Written(), cb.Written(), skey)
+	}
 	return
 }
+
+// ccHonestBound: generous bound for an honest in-memory handshake (nothing measures time).
+const ccHonestBound = 20 * time.Second
 
 func runClientCache(c *Ctx) error {
 	c.Res.Rule = "histories (2-8 steps) of real client handshakes over (tag in {none,T1,T2,srvA}) x (server address in {srvA, srvB, two sinful addresses that differ only in their ?sock= decoration, and the address srvA,srvB (contains a comma) — with tag srvA + address srvB this is the pair whose keys collided when commas were not escaped}) x (command in {60007,60008,60009}) against a real server whose post-auth ValidCommands vary, the client's own authentication policy drawn from PREFERRED / NEVER / REQUIRED, interleaved with server restart (session forgotten -> SID_NOT_FOUND), broken connections (peer closes) and stalled ones (peer goes silent, the client's deadline fires), client-side expiry (virtual time), explicit invalidation, InvalidateExpired, and handshakes that name a cached session explicitly by id under an arbitrary triple; after every step all 60 LookupByCommand routes are compared with the model and with a reference map (tag,addr,cmd) -> session kept by the spec rules; distinct by history; non-trivial = the history touches >=2 distinct triples"
@@ -130,7 +190,7 @@ func runClientCache(c *Ctx) error {
 				// the cache, REQUIRED must not ride such a session later (it does a full handshake)
 				clientAuth := pick(c, []security.SecurityLevel{security.SecurityPreferred, security.SecurityPreferred, security.SecurityNever, security.SecurityRequired})
 				req := clientAuth == security.SecurityRequired
-				neg, resumed, err := ccHandshake(cache, t, vc, breakIt, stall, "", clientAuth)
+				neg, resumed, declared, declOK, err := ccHandshakeDecl(cache, t, vc, breakIt, stall, "", clientAuth)
 				var r, full string
 				full = "~|none|~|0|-"
 				var sre *security.SessionResumptionError
@@ -159,23 +219,44 @@ func runClientCache(c *Ctx) error {
 						}
 					}
 				case err == nil:
-					cl := strings.Split(neg.ValidCommands, ",")
-					sort.Strings(cl)
+					// The commands the session may be reused for are those the SERVER declared (the
+					// post-auth ad as it travelled, opened with the reference codec under the server's
+					// key) — not what the client says it understood.
+					if !declOK {
+						// could not read the server's ad from the wire: use what the server side was
+						// configured to declare (its PostAuthPolicy's list, else the negotiated command)
+						c.Count("declaration-unreadable")
+						c.Res.Notes = append(c.Res.Notes, "clientcache: post-auth ad could not be opened from the wire; declaration taken from the server's configuration")
+						var l []string
+						for _, x := range vc {
+							l = append(l, fmt.Sprint(x))
+						}
+						if len(l) == 0 {
+							l = []string{t.cmd}
+						}
+						declared = strings.Join(l, ",")
+					} else {
+						c.Count("declaration-read-from-wire")
+					}
 					key := "none"
 					if len(neg.GetSharedSecret()) > 0 {
 						key = "1"
 					}
-					full = fmt.Sprintf("%s|%s|%s|%s|%s", neg.SessionId, key, strOrTilde(neg.User), b01(neg.Authentication), strings.Join(strings.Split(neg.ValidCommands, ","), ","))
+					full = fmt.Sprintf("%s|%s|%s|%s|%s", neg.SessionId, key, strOrTilde(neg.User), b01(neg.Authentication), declared)
 					r = "ok full sid=" + neg.SessionId
 					sids = append(sids, neg.SessionId)
 					authOf[neg.SessionId] = neg.Authentication
+					if canonList(neg.ValidCommands) != canonList(declared) {
+						c.Violate(Violation{Property: "C07", Key: "C07:client-valid-commands-not-as-declared", What: "the set of commands the client records as valid for the new session differs from what the server declared in its post-auth ad",
+							Ops: append(append([]string{}, ops...), fmt.Sprintf("# full handshake tag=%q addr=%s cmd=%s", t.tag, t.addr, t.cmd)), Expected: canonList(declared), Observed: canonList(neg.ValidCommands)})
+					}
 					if wantSid, ok := ref[t]; ok && !expired[wantSid] && !breakIt {
 						if _, found := security.GetSessionCache().LookupNonExpired(wantSid); found {
 							// a live, known session existed for exactly this triple and was not used: allowed (not a violation of C07)
 							c.Count("full-although-cached")
 						}
 					}
-					for _, cm := range strings.Split(neg.ValidCommands, ",") {
+					for _, cm := range strings.Split(declared, ",") {
 						cm = strings.TrimSpace(cm)
 						if cm != "" {
 							ref[triple{t.tag, t.addr, cm}] = neg.SessionId
@@ -270,4 +351,19 @@ func runClientCache(c *Ctx) error {
 	}
 	security.ClearSessionCache()
 	return diffBatch(c, "sc", cases, nil)
+}
+
+// canonList: a comma-separated list as a sorted set of trimmed non-empty items.
+func canonList(l string) string {
+	var o []string
+	seen := map[string]bool{}
+	for _, x := range strings.Split(l, ",") {
+		x = strings.TrimSpace(x)
+		if x != "" && !seen[x] {
+			seen[x] = true
+			o = append(o, x)
+		}
+	}
+	sort.Strings(o)
+	return strings.Join(o, ",")
 }
